@@ -1,4 +1,41 @@
 import CoolerModel.Model.FileModel
+/-!
+# Property C15 — file-level operations preserve content and touch nothing else
+
+Model: `CoolerModel/Model/FileModel.lean` (flat map path ↦ entry per HDF5 file, explicit soft /
+external link entries, `resolveN` with a link-nesting budget; `copyOp` mirrors `fileops._copy`
+branch by branch, `createCooler` the mode / target-group handling of `create`).
+
+All statements are over ARBITRARY file-system states subject to the invariant `WF` (every proper
+prefix of a stored path is a group; the root exists), which `step_wf` / `run_wf` prove is kept by
+every operation whatever its outcome — so they hold after any history `run v [] ops`.
+`Resolves`/`Reads` quantify the link budget existentially ("for some finite budget"), which makes
+them compositional; `readCollection`/`isCooler` use the fixed budget `LINKFUEL`.
+
+Main theorems (namespace `Cooler.C15`)
+* `copy_reads_equal` — successful cp / ln / ln -s (same file or two files, destination ≠ root of
+  another file): `Reads fs src c → Reads fs' dst c`.  `copy_root_reads_equal` — the root-destination
+  special case (children copied one by one, attributes updated).  `mv_reads_equal_plain` — `mv`
+  inside a file between link-free paths.  Hypothesis everywhere: no *existing* destination file was
+  truncated by `overwrite` (`copyOp` with overwrite on an existing file is `copyOp` on the truncated
+  file system; a source reached through that very file is of course gone).
+* `copy_frame` — any outcome: only the destination file can change; without truncation every object
+  that existed still exists unchanged (`Sub fs fs'`), hence every collection reads as before under
+  every name.  `copy_frame_new` — what is new lies under the destination's canonical location or is
+  an empty intermediate group.  `mv_frame` — the same minus the source link's region.
+* `mv_source_gone_partial` (inside one file, any links), `mv_source_gone_spec` (the specification,
+  any files); `mv_source_gone_Statement Variant.current` is FALSE: `mv_source_gone_current_false`,
+  `d4_counterexample`, and in general `mv_cross_eq_cp` / `mv_cross_file_keeps_source` (finding D4).
+* `list_exact` — `p ∈ listCoolers fs f ↔ isCooler fs f p` for well-formed link-free files;
+  `d5_counterexample` — with an external link the code lists the target's internal name (finding D5).
+* `isCooler_total` — `false`, never an error, for unknown files, unresolvable paths, datasets.
+* `create_append_frame`, `create_root_append_frame` (unrelated attributes and all other objects
+  survive), `create_w_replaces`, `create_w_eq`, `recreate_replaces`.
+
+Partial / not proved: `copy_reads_equal` for `mv` through links (only `mv_reads_equal_plain`);
+`list_exact` for files with soft links (the traversal and the resolver are both fuel-bounded; the
+correspondence covers them); `LinkFree` is a hypothesis of `list_exact`, not an invariant.
+-/
 namespace Cooler.C15
 open Cooler.FileModel
 
